@@ -7,6 +7,7 @@ Decisions the docs leave open are frozen to the behaviour pinned by tests/test_s
 DESIGN.md section 4.2.
 """
 import re
+import sys
 
 from mc.oracles.misc import ELEMENTS, ORGANIC, IDX, capacity
 
@@ -88,9 +89,19 @@ def split_fragments(tokens):
 
 def decode(tokens, table, trace=None):
     mol = Mol()
-    for f in split_fragments(tokens):
-        it = iter(f)
-        _derive(it, mol, float("inf"), 0, None, table, trace, [])
+    # the model is recursive (one frame per nesting level); the limit is raised only for the duration of this call so
+    # that the implementation under test keeps running under the interpreter's normal limit (workers are single-threaded)
+    limit = sys.getrecursionlimit()
+    need = 3 * len(tokens) + 200
+    if need > limit:
+        sys.setrecursionlimit(need)
+    try:
+        for f in split_fragments(tokens):
+            it = iter(f)
+            _derive(it, mol, float("inf"), 0, None, table, trace, [])
+    finally:
+        if need > limit:
+            sys.setrecursionlimit(limit)
     # second pass: ring candidates in order of appearance, minimal bond-order reduction
     for (l, r, order, marks) in mol.rings:
         if l == r:
